@@ -109,10 +109,11 @@ SYM2 = {"gammadown3", "gammaup3", "dtgammaup3", "gammadown3_bssnok", "gammaup3_b
         "s_Ricci_down3_phi", "eweyl_n_down3", "bweyl_n_down3", "gammadown4", "gammaup4",
         "gdown4", "gup4", "hdown4", "hup4", "Tdown4", "Tup4", "thetadown4", "sheardown4",
         "st_Ricci_down4", "Einsteindown4", "eweyl_u_down4", "bweyl_u_down4"}
+SYM2 |= {"gdown", "gup", "Ricci_down", "Einstein_down"}
 ANTISYM2 = {"omegadown4"}
-SYM_LAST2 = {"s_Gamma_udd3", "s_Gamma_udd3_bssnok", "st_Gamma_udd4"}
-RIEMANN = {"s_Riemann_down3", "st_Riemann_down4", "st_Weyl_down4"}
-ANTISYM_LAST2 = {"s_Riemann_uddd3", "st_Riemann_uddd4"}
+SYM_LAST2 = {"s_Gamma_udd3", "s_Gamma_udd3_bssnok", "st_Gamma_udd4", "Gamma_udd", "Gamma_down"}
+RIEMANN = {"s_Riemann_down3", "st_Riemann_down4", "st_Weyl_down4", "Riemann_down"}
+ANTISYM_LAST2 = {"s_Riemann_uddd3", "st_Riemann_uddd4", "Riemann_uddd"}
 ANTISYM_PAIRS = {"st_Riemann_uudd4"}
 
 
@@ -168,8 +169,8 @@ class Arr:
         return Arr((), (), {(): p} if not p.is_zero() else {})
 
     @staticmethod
-    def key(key):
-        dims, var = KEYTYPES[key]
+    def key(key, types=None):
+        dims, var = (types or KEYTYPES)[key]
         comps = {}
         for idx in itertools.product(*[range(d) for d in dims]):
             s, cid = canon_component(key, idx)
@@ -264,9 +265,14 @@ class Env:
 class Interp:
     MAXCALL = 12
 
-    def __init__(self, sources, config=None):
+    def __init__(self, sources, config=None, rel="core.py", cls="AurelCore", keytypes=None,
+                 opaque=None):
         self.S = sources
-        self.core = sources.functions("core.py")
+        self.rel = rel
+        self.cls = cls
+        self.keytypes = keytypes if keytypes is not None else KEYTYPES
+        self.opaque = OPAQUE_KEYS if opaque is None else opaque
+        self.core = sources.functions(rel)
         self.maths = sources.functions("maths.py")
         self.config = dict(config or {})
         self.problems = []        # TypeProblem list
@@ -276,6 +282,8 @@ class Interp:
         self.einsum_count = 0
         self.overrides = {}
         self._keycache = {}
+        self.zero_atoms = set()      # atoms assumed to vanish (specialised interpretation)
+        self.branch_atoms = set()    # atoms met in value-dependent branches
 
     # -- configuration ---------------------------------------------------------------------
     def ask(self, q):
@@ -320,9 +328,9 @@ class Interp:
         return None
 
     def run_method(self, name, args=()):
-        fn = self.core.get("AurelCore." + name)
+        fn = self.core.get(self.cls + "." + name)
         if fn is None:
-            raise AnalysisError(f"anchor vanished: core.py::AurelCore.{name}")
+            raise AnalysisError(f"anchor vanished: {self.rel}::{self.cls}.{name}")
         return self.call_function(fn, list(args), {}, name, True)
 
     # -- statements --------------------------------------------------------------------------
@@ -590,6 +598,8 @@ class Interp:
     def truth(self, v, node):
         if isinstance(v, (bool, int, str, list, tuple, dict, type(None), Fraction)):
             return bool(v)
+        if isinstance(v, Arr) and v.rank == 0 and v.get(()).is_const():
+            return v.get(()).cval() != 0
         raise Unsupported("condition on a symbolic value: " + unparse(node))
 
     # -- expressions -------------------------------------------------------------------------
@@ -699,7 +709,28 @@ class Interp:
                 continue
             right = self.ev(comp, env)
             if isinstance(left, (Arr, P)) or isinstance(right, (Arr, P)):
-                raise Unsupported("comparison of symbolic values")
+                la = self.to_arr(left) if isinstance(left, (Arr, P)) else None
+                ra = self.to_arr(right) if isinstance(right, (Arr, P)) else None
+                both_const = all(a is None or (a.rank == 0 and a.get(()).is_const())
+                                 for a in (la, ra))
+                if both_const:
+                    left = la.get(()).cval() if la is not None else left
+                    right = ra.get(()).cval() if ra is not None else right
+                else:
+                    if isinstance(op, (ast.Eq, ast.NotEq)):
+                        # generic tensors: components are independent non-zero symbols
+                        for a_ in (la, ra):
+                            if a_ is not None:
+                                for p_ in a_.c.values():
+                                    self.branch_atoms |= p_.atoms()
+                        self.problem("value-dependent-branch", "the formula branches on the "
+                                     f"value of a tensor component (`{unparse(node)}`); the "
+                                     "defining formula has no such case distinction", node)
+                        r = isinstance(op, ast.NotEq)
+                        result = result and r
+                        left = right
+                        continue
+                    raise Unsupported("comparison of symbolic values")
             if isinstance(op, ast.Eq):
                 r = left == right
             elif isinstance(op, ast.NotEq):
@@ -861,6 +892,12 @@ class Interp:
             return GRIDSHAPE
         if src == "self.verbose":
             return False
+        if src == "self.dim":
+            return int(self.ask("dim"))
+        if src == "self.simplify":
+            return bool(self.ask("simplify"))
+        if src == "self.coords":
+            return list(range(int(self.ask("dim"))))    # coordinate k is named by its index
         if src in ("self.data", "self.param", "self.fd"):
             return _Module(src)
         if src in ("self.fd.x", "self.fd.y", "self.fd.z"):
@@ -908,7 +945,7 @@ class Interp:
 
     def read_key(self, k, node):
         self.key_reads.add(k)
-        if k in OPAQUE_KEYS:
+        if k in self.opaque:
             if k == "dtconserved":
                 return (Arr.scalar(P.atom("dtconserved_D")), Arr.scalar(P.atom("dtconserved_E")),
                         Arr((3,), ("d",), {(i,): P.atom(f"dtconserved_S[{i}]")
@@ -916,11 +953,15 @@ class Interp:
             if k == "Weyl_Psi":
                 return [Arr.scalar(P.atom(f"Weyl_Psi[{i}]")) for i in range(5)]
             raise Unsupported("opaque key " + k)
-        if k not in KEYTYPES:
+        if k not in self.keytypes:
             raise Unsupported("untyped key " + k)
         a = self._keycache.get(k)
         if a is None:
-            a = self._keycache[k] = Arr.key(k)
+            a = Arr.key(k, self.keytypes)
+            if self.zero_atoms:
+                a = Arr(a.shape, a.var, {i: p for i, p in a.c.items()
+                                         if not (p.atoms() & self.zero_atoms)})
+            self._keycache[k] = a
         return Arr(a.shape, a.var, dict(a.c), owner=k)
 
     # -- calls ---------------------------------------------------------------------------------
@@ -939,7 +980,7 @@ class Interp:
             name = fsrc[5:]
             if name in self.overrides:
                 return self.overrides[name](self, *args)
-            fn = self.core.get("AurelCore." + name)
+            fn = self.core.get(self.cls + "." + name)
             if fn is None:
                 raise Unsupported("unknown method " + name)
             return self.call_function(fn, args, kwargs, name, True)
@@ -954,6 +995,8 @@ class Interp:
             return self.call_function(fn, args, kwargs, "maths." + name, False)
         if fsrc.startswith("np."):
             return self.np_call(fsrc[3:], args, kwargs, node)
+        if fsrc.startswith("sp."):
+            return self.sp_call(fsrc[3:], args, kwargs, node)
         # module-level functions of the module being interpreted (maths.py internals)
         if isinstance(node.func, ast.Name) and node.func.id not in env:
             fn = self.maths.get(node.func.id)
@@ -1045,9 +1088,65 @@ class Interp:
         if isinstance(o, Arr):
             if a == "copy":
                 return o.copy()
-            if a == "astype":
+            if a in ("astype", "as_mutable", "as_immutable"):
                 return o
+            if a in ("det", "inv"):
+                full, det = self.matrix_inverse(o, node)
+                if a == "det":
+                    return Arr.scalar(full)
+                n = o.shape[0]
+                rdet = full.pow(-1)
+                out = {}
+                for i in range(n):
+                    for j in range(n):
+                        cof = det([r for r in range(n) if r != j],
+                                  [c for c in range(n) if c != i])
+                        if (i + j) % 2:
+                            cof = -cof
+                        p = cof * rdet
+                        if not p.is_zero():
+                            out[(i, j)] = p
+                var = tuple({"u": "d", "d": "u"}.get(v) for v in o.var)
+                return Arr((n, n), var, out)
         raise Unsupported(f"method {a} of {type(o).__name__}")
+
+    # -- sympy (symbolic core) ----------------------------------------------------------------------
+    def sp_call(self, name, args, kwargs, node):
+        if name == "simplify":
+            return args[0]
+        if name == "diff":
+            a = self.to_arr(args[0])
+            r = a
+            for ax in args[1:]:
+                ax = _as_int(ax)
+                r = r.map(lambda p, ax=ax: deriv(p, ax))
+            return r
+        if name == "MutableDenseNDimArray":
+            shp = tuple(_as_int(d) for d in args[1])
+            return Arr(shp, None, {})
+        if name == "Matrix":
+            return self.to_arr(args[0])
+        if name in ("sqrt", "exp", "log", "sin", "cos"):
+            return self.np_call(name, args, kwargs, node)
+        if name == "Rational":
+            return Fraction(_as_int(args[0]), _as_int(args[1]))
+        raise Unsupported("sp." + name)
+
+    def matrix_inverse(self, a, node):
+        n = a.shape[0]
+        if a.rank != 2 or a.shape[1] != n:
+            raise Unsupported("inverse of a non-square array")
+
+        def det(rows, cols):
+            if len(rows) == 1:
+                return a.get((rows[0], cols[0]))
+            tot = P()
+            for j, c in enumerate(cols):
+                term = a.get((rows[0], c)) * det(rows[1:], cols[:j] + cols[j + 1:])
+                tot = tot + (term if j % 2 == 0 else -term)
+            return tot
+        full = det(list(range(n)), list(range(n)))
+        return full, det
 
     # -- numpy -----------------------------------------------------------------------------------
     def np_call(self, name, args, kwargs, node):
@@ -1394,7 +1493,7 @@ def _vs(var):
 # driver: interpret a method under every configuration it asks about
 # ---------------------------------------------------------------------------------------------
 def interpret_all_configs(sources, method, base_config=None, args=(), max_configs=64,
-                          options=None, overrides=None):
+                          options=None, overrides=None, interp_kw=None):
     """Yield (config, result | exception, interp) for every complete configuration reachable.
     Questions are discovered lazily (NeedConfig) and both answers explored."""
     options = options or {}
@@ -1402,7 +1501,7 @@ def interpret_all_configs(sources, method, base_config=None, args=(), max_config
     done = 0
     while todo:
         cfg = todo.pop()
-        it = Interp(sources, cfg)
+        it = Interp(sources, cfg, **(interp_kw or {}))
         it.overrides = dict(overrides or {})
         try:
             res = it.run_method(method, args)
